@@ -88,6 +88,44 @@ def run(tier, seed):
                               {"extra": a[:5], "missing": rest[:5], "differing": c[:5], "input": "delete every generated file, run the generator, diff with a pristine run"})
         samples.append({"run": "all-generated-files-missing", "status": rc, "committed_files_no_definition_produces": sorted(not_outputs)[:40], "count": len(not_outputs)})
         gen = [f for f in gen if f not in not_outputs]
+        # (4a) the same wowm files listed by the file system in another ORDER: a tmpfs is mounted over the scratch copy's `wowm` directory and the
+        # sources are copied into it file by file in ascending, descending and seed-shuffled name order (tmpfs lists a directory by creation
+        # order; the disk file system by name hash); the output must be the pristine one.  (The generator walks the directory tree unsorted
+        # and sorts what it parsed.)  Skipped, and reported as skipped, where mounting is not permitted.
+        import shutil as _sh
+        wl = os.path.join(SCRATCH, "wow_message_parser/wowm")
+        wsrc = os.path.join(REPO, "wow_message_parser/wowm")
+        orders = ["ascending", "descending"] + (["shuffled"] if tier != "quick" else [])
+        dir_order_runs = 0
+        for order in orders:
+            g.resync()
+            rcm, outm = sh(["mount", "-t", "tmpfs", "-o", "size=64m", "wowgen-wowm", wl], timeout=60)
+            if rcm != 0:
+                samples.append({"run": "directory-order", "skipped": "mount -t tmpfs not permitted: " + outm[-120:]})
+                break
+            try:
+                for dp, dns, fns in os.walk(wsrc):
+                    dns.sort(reverse=(order == "descending"))
+                    fns = sorted(fns, reverse=(order == "descending"))
+                    if order == "shuffled":
+                        fns = sorted(fns, key=lambda x: rng.below(1 << 30))
+                        dns[:] = sorted(dns, key=lambda x: rng.below(1 << 30))
+                    tgt = os.path.join(wl, os.path.relpath(dp, wsrc))
+                    os.makedirs(tgt, exist_ok=True)
+                    for fn in fns:
+                        _sh.copyfile(os.path.join(dp, fn), os.path.join(tgt, fn))
+                rc, out, _ = g.run(); runs += 1
+                dir_order_runs += 1
+                D = tree_digest(SCRATCH)
+            finally:
+                sh(["umount", "-l", wl], timeout=60)
+            a, b, c = tree_diff(D, P)
+            if rc != 0 or a or b or c:
+                rep.violation(f"C08/directory-order/{(c + a + b + ['status'])[0]}", f"with the wowm files listed in {order} order the run differs from the pristine run in {len(a) + len(b) + len(c)} files (status {rc})",
+                              {"order": order, "only_now": a[:5], "missing": b[:5], "differing": c[:10], "log": out[-400:] if rc else "",
+                               "input": f"mount a tmpfs over wow_message_parser/wowm, copy the sources into it file by file in {order} name order, run the generator, diff the generated tree with a run on the committed layout"})
+            samples.append({"run": f"directory-order-{order}", "status": rc, "differing": len(c), "extra": len(a), "missing": len(b)})
+        g.resync()
         # (4) determinism
         reps = 2 if tier == "quick" else 10
         for i in range(reps):
